@@ -236,6 +236,10 @@ def tasks(tier, seed):
                          "build": "dicts", "exps_b": [0, 4], "exps_a": [0, 3]}))
   T.append(("h_diffeq", {"nb": 2, "na": 1, "N": 4 if tier == "quick" else 6, "mem": "none",
                          "build": "dicts", "exps_b": [2, 3], "exps_a": [0]}))
+  # long, sparse delay lines (feedback and feed-forward) with an explicit initial state
+  T.append(("h_diffeq", {"nb": 1, "na": 2, "N": 3, "mem": "exact", "build": "dicts", "exps_b": [0], "exps_a": [0, 18]}))
+  T.append(("h_diffeq", {"nb": 2, "na": 2, "N": 3, "mem": "exact", "build": "dicts", "exps_b": [0, 17], "exps_a": [0, 2]}))
+  T.append(("h_diffeq", {"nb": 2, "na": 1, "N": 19, "mem": "none", "build": "dicts", "exps_b": [1, 18], "exps_a": [0]}))
   # coefficients rendered as a ratio p/q (the shape str(Fraction) has)
   T.append(("h_diffeq", {"nb": 1, "na": 1, "N": 2, "mem": "none", "build": "lists", "ratio": True},
             {"render": "ratio"}))
